@@ -52,7 +52,7 @@ type c08Obs struct {
 	cl *cluster.Cluster
 	mu sync.Mutex
 	// per node
-	held          map[string]string          // node -> lease id currently granted (service view, "" if none)
+	held          map[string]string // node -> lease id currently granted (service view, "" if none)
 	everHeld      map[string]bool
 	lossDelivered map[string]bool            // loss reported to the node, not yet re-acquired
 	handedOff     map[string]bool            // the node's lease was handed off (must not be closed)
